@@ -272,6 +272,8 @@ async fn run_drop_partial(case: &Value) -> Value {
 }
 
 /// C20: connect with secrets while the complete TRACE output is captured; search it.
+static USED_KEYS: std::sync::Mutex<Vec<String>> = std::sync::Mutex::new(Vec::new());
+
 async fn run_creds(case: &Value) -> Value {
     let tr = Tr::parse(case["tr"].as_str().unwrap_or("ssh")).unwrap();
     let outcome = case["outcome"].as_str().unwrap_or("success").to_string();
@@ -351,11 +353,29 @@ async fn run_creds(case: &Value) -> Value {
     match tr {
         Tr::Ssh => secrets_list.push(("ssh-password".into(), password.as_bytes().to_vec())),
         Tr::Tls => {
+            // the key of this attempt - and every other client key this process has handed to the
+            // library before (a worker runs many attempts: what one attempt was given must not
+            // turn up in the log of a later one either)
             let dir = peers::fixtures().join("pki");
-            let der = secrets::pem_der(&std::fs::read(dir.join(&key_file)).unwrap_or_default());
             let public: Vec<Vec<u8>> = peers::PUBLIC_CERTS.iter().map(|c| secrets::pem_der(&std::fs::read(dir.join(c)).unwrap_or_default())).collect();
-            for (k, seg) in secrets::sensitive_segments(&der, &public).into_iter().enumerate() {
-                secrets_list.push((format!("tls-client-key:der-segment-{k}"), seg));
+            let mut keys: Vec<String> = vec![key_file.clone()];
+            {
+                let mut used = USED_KEYS.lock().unwrap_or_else(|e| e.into_inner());
+                for k in used.iter() {
+                    if !keys.contains(k) {
+                        keys.push(k.clone());
+                    }
+                }
+                if !used.contains(&key_file) {
+                    used.push(key_file.clone());
+                }
+            }
+            for (n, kf) in keys.iter().enumerate() {
+                let der = secrets::pem_der(&std::fs::read(dir.join(kf)).unwrap_or_default());
+                for (k, seg) in secrets::sensitive_segments(&der, &public).into_iter().enumerate() {
+                    let label = if n == 0 { format!("tls-client-key:der-segment-{k}") } else { format!("tls-client-key-of-an-earlier-attempt:{kf}:der-segment-{k}") };
+                    secrets_list.push((label, seg));
+                }
             }
         }
         Tr::Cli => {}
